@@ -446,10 +446,53 @@ def r14(facts, res):
         return
     bad = []
     npush = 0
+    # adaptor form: the loop draws `prod(item)[dot(item)]` of the INCOMPLETE items from `keys().filter(..).map(..)`
+    adaptor = False
+    nxts = [(bb, t) for bb, t in b.calls_named('next', loops[h]) if 'Map<' in (callee_of(t).get('self_ty') or '') and 'Filter<' in (callee_of(t).get('self_ty') or '')]
+    if len(nxts) == 1:
+        okf = okm = False
+
+        def pcomp(t):
+            # which component of the closure's item parameter (pidx = 0, dot = 1), as (0, k) like item_comp
+            x = t
+            for _ in range(8):
+                if isinstance(x, tuple) and x and x[0] in ('ref', 'deref'):
+                    x = x[1]
+                elif isinstance(x, tuple) and x and x[0] == 'conv':
+                    x = x[2]
+                else:
+                    break
+            if isinstance(x, tuple) and x and x[0] == 'field':
+                y = x[1]
+                while isinstance(y, tuple) and y and y[0] in ('ref', 'deref'):
+                    y = y[1]
+                if y == ('param', 2):
+                    return (0, x[2])
+            return None
+        for c in facts.closures_of(b, recursive=False):
+            cps = [p for p in Walker(c, facts, max_paths=16).run() if p.end[0] == 'return']
+            if len(cps) != 1:
+                continue
+            r = cps[0].end[1]
+            if c.lty(0) == 'bool' and r[0] == 'bin' and r[1] in ('Ne', 'Lt', 'Gt') and has_call(r, 'prod_len'):
+                sides = [r[2], r[3]]
+                pl = [x for x in sides if has_call(x, 'prod_len')]
+                ot = [x for x in sides if not has_call(x, 'prod_len')]
+                if pl and ot and pcomp(pl[0][2][1] if is_call(pl[0], 'prod_len') else find_calls(pl[0], 'prod_len')[0][2][1]) == (0, 0) and pcomp(ot[0]) == (0, 1) \
+                        and (r[1] == 'Ne' or (r[1] == 'Lt' and not has_call(r[2], 'prod_len')) or (r[1] == 'Gt' and has_call(r[2], 'prod_len'))):
+                    okf = True
+            if 'Symbol' in c.lty(0):
+                ixs = [x for x in subterms(r) if isinstance(x, tuple) and x and x[0] == 'index']
+                ixs += [('index', x[2][0], x[2][1]) for x in subterms(r) if is_call(x, 'index') and len(x[2]) == 2]
+                if ixs and has_call(ixs[0][1], 'prod') and pcomp(ixs[0][2]) == (0, 1) and pcomp([x for x in subterms(ixs[0][1]) if is_call(x, 'prod')][0][2][1]) == (0, 0):
+                    okm = True
+        adaptor = okf and okm
     for p in ps:
-        complete = None
+        complete = False if adaptor else None
         seen = None
         for c, v in p.conds:
+            if adaptor and isinstance(v, int) and is_call(c, 'set') and 'Vob' in c[1] and len(c[2]) == 3 and c[2][2] == ('const', 1):
+                seen = (v == 0)       # Vob::set answers whether the bit changed: false = it was set already
             if c[0] == 'bin' and c[1] in ('Eq', 'Ne') and has_call(c, 'prod_len') and isinstance(v, int):
                 complete = (v == 1) if c[1] == 'Eq' else (v == 0)
             # seen bit: index into a Vob yields bool
@@ -464,7 +507,10 @@ def r14(facts, res):
             npush += 1
             sym = gcalls[0][3][2]
             ixs = [x for x in subterms(sym) if isinstance(x, tuple) and x and x[0] == 'index']
-            if not (ixs and has_call(ixs[0][1], 'prod') and item_comp(ixs[0][2]) == (0, 1)
+            if adaptor:
+                if not term_has(sym, lambda x: is_call(x, 'next')):
+                    bad.append('goto is not taken on the symbol drawn from the item iterator (%s)' % fmt_term(sym)[:70])
+            elif not (ixs and has_call(ixs[0][1], 'prod') and item_comp(ixs[0][2]) == (0, 1)
                     and item_comp([x for x in subterms(ixs[0][1]) if is_call(x, 'prod')][0][2][1]) == (0, 0)):
                 bad.append('goto is not taken on prod(item)[dot(item)] (%s)' % fmt_term(sym)[:70])
             tup = pushes[0][3][1]
